@@ -693,10 +693,15 @@ def main(argv):
         for step in cfg.get("pre", []):
             step(ctx, cfg)
         run_corpus(ctx, cfg)
-        for comp in cfg.get("components", []):
-            correspondence(ctx, comp, comp.get("label"))
-        for step in cfg.get("extra", []):
-            step(ctx, cfg)
+        if any(k == "divergence" and p for k, _, p in ctx.problems) and not os.environ.get("VERIF_KEEP_GOING"):
+            # a failing input is already in hand (a regression case diverges): the random search is not
+            # needed for the verdict, and on a broken tree it can be arbitrarily slow
+            log("  a corpus case already fails: generated sequences skipped (VERIF_KEEP_GOING=1 runs them anyway)")
+        else:
+            for comp in cfg.get("components", []):
+                correspondence(ctx, comp, comp.get("label"))
+            for step in cfg.get("extra", []):
+                step(ctx, cfg)
         return finish(ctx, cfg)
     finally:
         ctx.cleanup()
